@@ -375,10 +375,10 @@ int main(int argc, char** argv) {
             const oas_corpus::Info& f = oas_corpus::info(i);
             if (!is_single(f) || f.lattice) continue;
             nlibs++;
-            std::vector<double> tols = f.many_vertices ? both_tols : std::vector<double>{0};
+            std::vector<double> tols = f.circle_family ? std::vector<double>{0, TOL, 1e-2} : f.many_vertices ? both_tols : std::vector<double>{0};
             add_tasks(tasks, i, product(single_flag_sets(), levels, tols), 11, cycles);
         }
-        run_tasks("singles", fmt("%lld single-element libraries (every family except the lattice polygons) x flag sets {0, DETECT_ALL, 0xFF, each single flag} x level {%s} x circle tolerance {0; and 1e-3 when a polygon has > 4 vertices} x %d cycles",
+        run_tasks("singles", fmt("%lld single-element libraries (every family except the lattice polygons) x flag sets {0, DETECT_ALL, 0xFF, each single flag} x level {%s} x circle tolerance {0; and 1e-3 when a polygon has > 4 vertices; and 1e-2 for the circle / near-circle / partial-disc families} x %d cycles",
                                  (long long)nlibs, thorough ? "0,1,9" : "0,6", cycles),
                   tasks, 20);
     }
